@@ -274,12 +274,26 @@ func (eng *Engine) assignPoint(fr *Frame, env *Env, e Expr, elems bool, item str
 			eng.assignPoint(fr, env, &EUn{"*", x}, false, item, whole, points)
 		}
 	case *ECall:
-		t, _ := env.eval(x.Args[0])
+		var t *Term
+		if x.Fun != "atomicfield" {
+			t, _ = env.eval(x.Args[0])
+		}
 		switch x.Fun {
 		case "big":
 			points["big"] = append(points["big"], t)
 		case "lockdepth":
 			points["lock"] = append(points["lock"], t)
+		case "atomicfield":
+			if sel, ok := x.Args[0].(*ESel); ok {
+				bt, bty := env.eval(sel.X)
+				if pt, ok := bty.Underlying().(*types.Pointer); ok {
+					if idx, _ := findField(pt.Elem().Underlying().(*types.Struct), sel.Name); idx >= 0 {
+						k := "A:" + fieldClass(pt.Elem(), idx)
+						points[k] = append(points[k], bt)
+					}
+				}
+			}
+			return
 		}
 	}
 }
